@@ -82,6 +82,8 @@ pub trait GetFun<T> {
 
 impl HasParent<&StringName> for Class {
     fn has_parent(&self, other: &StringName, ctx: &Context, pos: Position) -> TypeResult<bool> {
+        #[cfg(feature = "verif")]
+        crate::verif_hooks::bump(6);
         if self.name == *other || other.name.as_str() == ANY {
             return Ok(true);
         } else if (self.name.name == TUPLE && (other.name == TUPLE || other.name == COLLECTION))
@@ -169,6 +171,8 @@ impl LookupClass<&StringName, Class> for Context {
     /// Substitutes all generics in the class when found.
     /// Also constructs class complete with all fields and functions from parents.
     fn class(&self, class: &StringName, pos: Position) -> TypeResult<Class> {
+        #[cfg(feature = "verif")]
+        crate::verif_hooks::bump(5);
         if let Some(generic_class) = self.classes.iter().find(|c| c.name.name == class.name) {
             let mut generics = HashMap::new();
             if class.name == TUPLE {
